@@ -36,6 +36,11 @@ def main():
     corr_kinds.monitor_c08_kinds(rep, 800 if thorough else 120)
     S.monitor_c18(rep, 1500 if thorough else 200, pid="C08")
     mon_route.run(rep, thorough)
+    # one-way arcs in whole models after a run (incl. models whose arcs were overridden through Model.add_overrides with an
+    # entry that names another arc class): a pull-only arc offers no room to a push and hands it back whole, a push-only
+    # arc answers no pull
+    import mon_probe
+    mon_probe.run(rep, thorough, pid=PID)
     C.apply_known(rep, PID, {})
     rep.extra["exhaustive_tables"] = True
     return rep.finish(RULE, ["tags and type filters are literals at the emitting call sites (checked by the generator)"])
